@@ -10,9 +10,11 @@ Caps(c, r, d) == [Capacities |-> [core |-> IntTok(c), ram |-> IntTok(r), disk |-
 P(n, c, p) == n \o "/" \o c \o "/" \o n \o "-" \o c \o "-l2ovs/" \o c \o "-" \o p
 NB1 == << [op |-> "AddNode", name |-> "n1", site |-> "S1", ntype |-> "VM", rp |-> Caps(2, 8, 10)],
           [op |-> "AddComponent", n |-> "n1", name |-> "c1", model |-> "nic2"],
-          [op |-> "AddComponent", n |-> "n1", name |-> "g1", model |-> "gpu"] >>
+          [op |-> "AddComponent", n |-> "n1", name |-> "g1", model |-> "gpu"],
+          [op |-> "AddComponent", n |-> "n1", name |-> "g2", model |-> "gpu"] >>
 NB2(site) == << [op |-> "AddNode", name |-> "n2", site |-> site, ntype |-> "VM", rp |-> Caps(4, 16, 100)],
-                [op |-> "AddComponent", n |-> "n2", name |-> "c1", model |-> "nic2"] >>
+                [op |-> "AddComponent", n |-> "n2", name |-> "c1", model |-> "nic2"],
+                [op |-> "AddComponent", n |-> "n2", name |-> "c2", model |-> "nic2"] >>
 NB3 == << [op |-> "AddNode", name |-> "n3", site |-> "S2", ntype |-> "VM", rp |-> <<>>],
           [op |-> "AddComponent", n |-> "n3", name |-> "c1", model |-> "nic1"] >>
 SW == << [op |-> "AddSwitch", name |-> "sw", site |-> "S3", nports |-> 2] >>
@@ -23,6 +25,7 @@ Svc ==
                 [op |-> "SetProp", p |-> "svc:br/n1-c1-p1", kind |-> "rp", pname |-> "Labels", val |-> [local_name |-> "s:inport"]] >>,
      PMX |-> << [op |-> "AddPortMirror", name |-> "pmx", from |-> "outside-port", to |-> P("n1", "c1", "p2")] >>,
      PMI |-> << [op |-> "AddPortMirror", name |-> "pmi", from |-> "inport", to |-> P("n2", "c1", "p2")] >>,
+     V6  |-> << [op |-> "AddService", name |-> "v6", nstype |-> "FABNetv6Ext", ifs |-> <<P("n2", "c2", "p1")>>, site |-> "", rp |-> <<>>] >>,
      V4  |-> << [op |-> "AddService", name |-> "v4", nstype |-> "FABNetv4Ext", ifs |-> <<P("n2", "c1", "p1")>>, site |-> "", rp |-> <<>>] >>]
 RECURSIVE Flat(_)
 Flat(ss) == IF ss = <<>> THEN <<>> ELSE Head(ss) \o Flat(Tail(ss))
@@ -32,7 +35,7 @@ Builds ==
         nodeorder \in {<<NB1, NB2(s2), FB>> : s2 \in {"S1", "S2"}} \cup {<<NB2(s2), FB, NB1>> : s2 \in {"S1", "S2"}}
                       \cup {<<NB3, SW, NB1, NB2("S1")>>}
                       \cup (IF Wide THEN {<<NB1, NB2("S1"), NB3>>, <<SW, NB2("S2"), NB1, FB>>, <<NB2("S1"), NB1>>} ELSE {}),
-        so \in UNION {Perms(sub) : sub \in IF Wide THEN SUBSET DOMAIN Svc ELSE {{"PMX", "PMI"}, {"BR", "PMX", "PMI"}, {"BR", "PMI", "V4"}, {"BR"}, {}}}}
+        so \in UNION {Perms(sub) : sub \in IF Wide THEN SUBSET DOMAIN Svc ELSE {{"PMX", "PMI"}, {"BR", "PMX", "PMI"}, {"BR", "PMI", "V4"}, {"V4", "V6", "PMX"}, {"BR"}, {}}}}
 RECURSIVE RunAll(_, _, _)
 RunAll(T, ops, i) == IF i > Len(ops) THEN T ELSE RunAll(Apply(T, ops[i]).st, ops, i + 1)
 
